@@ -349,6 +349,7 @@ pub fn analyse_instance(rep: &mut Report, run: &RoleRun, t: usize, inst: &Instan
     let site = run.site();
     let is_enum = run.role.item_kind == "enum";
     let mname = match tn { "PartialEq" => "eq", "PartialOrd" => "partial_cmp", "Ord" => "cmp", "Hash" => "hash", "Eq" => "_assert", _ => "" };
+    for (name, msg) in crate::props_hyg::signature_findings(inst) { rep.fail(&format!("{rules_prefix}TP-signature"), &role, &name, &msg, &site, json!({})); }
     let mut sem = Sem::new();
     // locate the method body
     let body: Tm = if tn == "Eq" {
@@ -381,6 +382,18 @@ pub fn analyse_instance(rep: &mut Report, run: &RoleRun, t: usize, inst: &Instan
         };
         sem.method(m)
     };
+    // enum fields are bound by reference: what stands for the field (the operand, the `$` of a key) is the place `*binder`,
+    // of the field's own type as `self.f` is for a struct - never the reference itself (`$ as u8`, `by` functions, casts)
+    if is_enum {
+        let all = std::cell::Cell::new(0usize);
+        let derefd = std::cell::Cell::new(0usize);
+        body.walk(&mut |t| match t {
+            Tm::VField { .. } => all.set(all.get() + 1),
+            Tm::Deref(x) if matches!(&**x, Tm::VField { .. }) => derefd.set(derefd.get() + 1),
+            _ => {}
+        });
+        rep.check(all.get() == derefd.get(), &format!("{rules_prefix}TP-operand-place"), &role, "binder-deref", &format!("{} of {} uses of a by-reference field binder are not `*binder`: the operand (and the `$` of a key expression) is then a reference, not the field", all.get() - derefd.get().min(all.get()), all.get()), &site, json!({"state": cond_s}));
+    }
     // per-variant bodies
     let mut groups: Vec<(Option<usize>, Tm)> = Vec::new();
     if !is_enum {
